@@ -50,7 +50,8 @@ def _apply(it, self, node):
     if isinstance(node, ast.MatchValue):
         return SObj(_Expr, f_result=("pattern", node.value.value), _result=None)
     if isinstance(node, ast.Name):
-        return SObj(_Expr, f_result=("name", node.id), _result=None)
+        # the subject: an expression WITH bound statements (e.g. the inlined body of a helper with a side effect)
+        return SObj(_Expr, f_result=("name", node.id), _result=None, f_bound=["<statements bound to the subject>"])
     raise AssertionError(f"unexpected node {ast.dump(node)[:60]}")
 
 
@@ -69,6 +70,13 @@ def match_spec(name, src, verdict):
                 want_cases.append((case.pattern.value.value, label))
 
         def holds(res):
+            if not want_cases:
+                # no comparison evaluates the subject: it is evaluated (once) in front of the selection
+                if not (isinstance(res, SObj) and res.kind is OUT.CodeBlock and len(res.fields["f_content"]) == 2):
+                    return False
+                subj, res = res.fields["f_content"]
+                if not (isinstance(subj, SObj) and subj.kind is _Expr and subj.fields.get("f_bound") == ["<statements bound to the subject>"]):
+                    return False
             if not (isinstance(res, SObj) and res.kind is OUT.CondSelect):
                 return False
             cases, default = res.fields["f_cases"], res.fields["f_default"]
@@ -82,9 +90,15 @@ def match_spec(name, src, verdict):
                 lhs, rhs = cond.fields["f_lhs"], cond.fields["f_rhs"]
                 if lhs.fields["f_result"] != ("name", "s") or rhs.fields["f_result"] != ("pattern", value) or body.fields["f_label"] != label:
                     return False
+            # the subject is evaluated ONCE: the statements bound to it belong to the first comparison only (a chain of
+            # if / elsif re-evaluates whatever is bound to each condition)
+            for i, (cond, body) in enumerate(cases):
+                bound = cond.fields["f_lhs"].fields.get("f_bound")
+                if bound != (["<statements bound to the subject>"] if i == 0 else []):
+                    return False
             return True
 
-        return C.Pred(holds, "CondSelect([(subject == pattern_i, body_i)] in source order, default body)")
+        return C.Pred(holds, "CondSelect([(subject == pattern_i, body_i)] in source order, default body), subject evaluated once")
 
     return spec
 
@@ -99,11 +113,63 @@ for name, (src, verdict) in PROGRAMS.items():
     c.interp_flags = {"class_call_models": {
         OUT.Compare: lambda it, args, kw: SObj(OUT.Compare, f_op=args[0], f_lhs=args[1], f_rhs=args[2], f_target=args[3]),
         OUT.CondSelect: lambda it, args, kw: SObj(OUT.CondSelect, f_cases=list(args[0]), f_default=args[1]),
+        OUT.Value: lambda it, args, kw: SObj(_Expr, f_result=args[0], _result=None, f_bound=list(args[1])),
+        OUT.CodeBlock: lambda it, args, kw: SObj(OUT.CodeBlock, f_content=list(args[0])),
         Temporary[bool]: lambda it, args, kw: SObj(Temporary, f_tag="compare-result"),
         Temporary: lambda it, args, kw: SObj(Temporary, f_tag="compare-result"),  # when a subscript model of another module is loaded
     }}
-    c.custom_replay = "contracts.c03_match.replay_match_guard"
+    c.custom_replay = "contracts.c03_match.replay_match_guard" if verdict == "reject" else "contracts.c03_match.replay_match_subject"
     con.cases.append(c)
+
+
+_Expr.bound_statements = lambda self: None
+I.register_model(_Expr.bound_statements, lambda it, self: self.fields.get("f_bound", []))
+
+_SUBJECT_DESIGN = '''
+from cohdl import Entity, Port, Bit, Unsigned, Variable
+from cohdl import std
+class MatchSubject(Entity):
+    clk = Port.input(Bit)
+    a = Port.input(Unsigned[4])
+    b = Port.input(Unsigned[4])
+    q = Port.output(Unsigned[4], default=0)
+    r = Port.output(Unsigned[4], default=0)
+    def architecture(self):
+        v = Variable[Unsigned[4]](0)
+        w = Variable[Unsigned[4]](0)
+        def nxt():
+            nonlocal v
+            v @= v + 1
+            return v
+        def nxw():
+            nonlocal w
+            w @= w + 1
+            return w
+        def f():
+            match nxt():
+                case 1:
+                    return self.a
+                case 2:
+                    return self.b
+                case _:
+                    return Unsigned[4](9)
+        @std.sequential(std.Clock(self.clk))
+        def proc():
+            self.q <<= f()
+            match nxw():
+                case _:
+                    self.r <<= w
+t = std.VhdlCompiler.to_string(MatchSubject)
+print("INCREMENTS-V", t.count("(v) + (1)"), "INCREMENTS-W", t.count("(w) + (1)"))
+'''
+
+
+def replay_match_subject(payload):
+    from contracts.c06_extra import _run_design
+
+    rc, out = _run_design(_SUBJECT_DESIGN)
+    return {"reproduced": rc == 0 and "INCREMENTS-V 1 INCREMENTS-W 1" not in out,
+            "detail": "`match nxt():` with a helper that increments a variable; the subject must be evaluated exactly once: " + out[-120:]}
 
 
 _MATCH_DESIGN = '''
